@@ -139,7 +139,7 @@ def run(ctx):
         orig = copy.deepcopy(t)
         case = {"tree": orig, "strict": strict}
         try:
-            pruned = validate.prune(root, strict)
+            pruned = impl.limited(validate.prune, root, strict)
         except Exception as e:
             fails.append({"case": case, "what": f"prune raised {type(e).__name__}: {e}"})
             continue
@@ -148,7 +148,7 @@ def run(ctx):
         w = oracle(orig, root, pruned, strict, None)
         if w is None:
             try:
-                again = validate.prune(root, strict)
+                again = impl.limited(validate.prune, root, strict)
                 if again or impl.snapshot(root) != res:
                     w = f"pruning a second time removed {[(n.name) for n, _ in again]}"
             except Exception as e:
